@@ -31,6 +31,8 @@ GOLDEN = os.path.join(os.path.dirname(os.path.abspath(__file__)), "gen_read_gold
 # (module file, class, function)
 PINNED: List[Tuple[str, str, str]] = [
     ("transaction.py", "Table", "_get_all_data_files"),
+    ("transaction.py", "Table", "_data_files_of"),
+    ("transaction.py", "Table", "_get_current_schema"),
     ("transaction.py", "Table", "_read_datafile_table"),
     ("transaction.py", "Table", "_scan_table"),
     ("transaction.py", "Table", "scan"),
